@@ -280,7 +280,7 @@ def worker(args):
     viol, stats, inconc = [], collections.Counter(), []
     for rq, info in crashes:
         viol.append(("crash " + vf.crash_sig(info), "sanitizer report / abnormal exit of the client in stream management", {"stderr": info["stderr"][-4000:]}))
-    for out, (plan, markers) in zip(outs, metas):
+    for idx_, (out, (plan, markers)) in enumerate(zip(outs, metas)):
         if not out:
             continue
         stats["histories"] += 1
@@ -288,11 +288,15 @@ def worker(args):
             fails = [e for e in out["journal"] if e["ev"] == "await_failed"]
             inconc.append("history stalled at step %s: %s" % (out["stalled"], fails[:1]))
             continue
-        done = judge2(out["journal"], plan, markers, viol, stats)
-        for m in markers:
-            stats["stanzas"] += 1
-            if m not in done:
-                viol.append(("report-never-fired", "a send task never reported anything although the client was destroyed", {"history": [list(map(str, o)) for (_, o, _) in plan], "marker": m}))
+        def jf(j_, vv, ss, plan=plan, markers=markers):
+            done = judge2(j_, plan, markers, vv, ss)
+            for m in markers:
+                ss["stanzas"] += 1
+                if m not in done:
+                    vv.append(("report-never-fired", "a send task never reported anything although the client was destroyed", {"history": [list(map(str, o)) for (_, o, _) in plan], "marker": m}))
+        v_, st_, _ = wire.judged(binary, cases[idx_], out, jf)
+        viol += v_
+        stats.update(st_)
     return viol, dict(stats), inconc
 
 
